@@ -3,9 +3,13 @@
 Tie between `lean/PynguinModel/Model/TestCaseAssert.lean` (theorems: `Props/C19.lean`) and the real code:
 
 * every case builds a REAL `TestCase` (libcst statements, real `Assertion` objects of all six classes, real
-  `GenericFunction` accessibles), runs a post-processing history on it with the real methods
-  (`UnusedStatementsTestCaseVisitor` / `remove_unused_variables`, `remove_statement_with_forward_dependencies`,
-  `chop`, `clone`) and then the REAL `TestSuiteWriter.write` (which calls `remove_unused_variables`,
+  `GenericFunction` accessibles; statements are calls, chained/compound assignments AND primitive /
+  collection literals; assertion sources are the statement's own variable, earlier variables and their fields,
+  module attributes, class static fields; some assertions are equal to an earlier one — a value observed again),
+  runs a post-processing history on it with the real methods
+  (`TestCasePostProcessor([UnusedStatementsTestCaseVisitor()])` on the chromosome as its own step — the test case
+  it leaves behind and its `deleted_statement_indexes` are compared with the model —, `remove_unused_variables`,
+  `remove_statement_with_forward_dependencies`, `chop`, `clone`) and then the REAL `TestSuiteWriter.write` (which calls `remove_unused_variables`,
   `_per_statement_exceptions`, `_build_test_function` and writes the file).  The re-execution primitive
   `_exec_statement_guarded` is scripted (finished / exception / watchdog timeout per statement) in most cases and
   real in the rest (statements then really run against a small module).  The written FILE is parsed with `ast`.
@@ -13,7 +17,8 @@ Tie between `lean/PynguinModel/Model/TestCaseAssert.lean` (theorems: `Props/C19.
   are compared with `Driver/C19.lean`.
 * the oracle states the property on the parsed file, independently of the model: every statement that
   survives is followed by exactly the renderable assertions attached to it at the start, in order; for
-  histories without statement removals no statement and no assertion is missing; every name an exported
+  histories without minimiser removals (passes, visitor visits, clones) every statement that carried an assertion
+  is in the file; every name an exported
   assertion reads is bound above it.
 * `extra_checks`: real pynguin pipeline runs (child interpreters): the suite is snapshotted right before
   `generator._minimize` (= after assertion generation / assertion minimisation) and compared with what
@@ -37,6 +42,9 @@ from vcommon import Failure, PropertyCheck, run_main  # noqa: E402
 
 SUT_NAME = "c19sut"
 SUT_SRC = '''"""module the synthetic C19 statements run against"""
+
+
+LIMIT = 10
 
 
 class C19Err(Exception):
@@ -79,7 +87,19 @@ def boom3(tag, *args):
     raise C19Err(tag)
 '''
 EXC_NAMES = ["ValueError", "KeyError", "ZeroDivisionError", "C19Err"]
-STMT_KINDS = ["assign", "expr", "chain", "compound"]
+STMT_KINDS = ["assign", "expr", "chain", "compound", "literal"]
+# literal right-hand sides (what pynguin's primitive / collection statements look like).  `{t}` = the string tag
+# "s<sid>", `{n}` = the number tag 7000+sid; the forms without a tag are identified by their text (at most one
+# statement per such text in a case: case["untagged"]); `vars` reads earlier variables (a collection statement).
+LITERAL_FORMS = {
+    "int": "{n}", "negint": "-{n}", "float": "{n}.5", "str": "{t}", "bytes": "b{t}", "complex": "{n}j",
+    "list": "[{n}, 2]", "tuple": "({t}, None)", "set": "{{{n}, -1}}", "dict": "{{{t}: [True, 1.5]}}",
+    "nested": "[({n}, 'x'), {{'k': None}}]",
+    "none": "None", "true": "True", "false": "False", "elist": "[]", "edict": "{{}}", "etuple": "()", "estr": "''",
+    "vars": "[{v}{t}]",
+}
+UNTAGGED = {"none", "true", "false", "elist", "edict", "etuple", "estr"}
+TAG_BASE = 7000
 ASSERT_KINDS = ["object", "float", "len", "type", "isinst", "exc"]
 
 PIPE_SUTS = {
@@ -129,6 +149,36 @@ def ratio(a: int, b: int) -> float:
     if b == 0:
         raise ZeroDivisionError("b")
     return a / b
+''',
+    # module / class static state: the assertion generator hangs `module.LIMIT == 10`, `module.Counter.created == ..`
+    # on whatever statement comes first — also on a primitive nothing reads (sources foreign to the statement)
+    "state": '''LIMIT = 10
+MODE = "strict"
+
+
+class Counter:
+    created = 0
+
+    def __init__(self) -> None:
+        Counter.created += 1
+        self.count = 0
+
+    def bump(self, by: int) -> int:
+        self.count += min(max(by, 0), LIMIT)
+        return self.count
+
+    def reset(self) -> None:
+        self.count = 0
+
+
+def scale(x: int) -> int:
+    if x > LIMIT:
+        return LIMIT
+    return x * 2
+
+
+def label(flag: bool) -> str:
+    return MODE if flag else "lenient"
 ''',
     "text": '''def initials(name: str) -> str:
     return "".join(p[0] for p in name.split() if p)
@@ -187,6 +237,39 @@ def find_function(text: str, name: str):
 
 
 VAR = re.compile(r"^var_(\d+)$")
+TAG = re.compile(r"^s(\d+)$")
+
+
+def sid_of(node, untagged=None):
+    """identity tag of a synthetic statement, read from its ast: the string/bytes constant "s<k>", a number constant
+    7000+k, or — for right-hand sides that cannot carry a tag (`None`, `True`, `[]` ...) — the case's table of such
+    texts.  None when there is no tag."""
+    for c in ast.walk(node):
+        if isinstance(c, ast.Constant):
+            v = c.value
+            if isinstance(v, bytes):
+                v = v.decode("ascii", "replace")
+            if isinstance(v, str):
+                mm = TAG.match(v)
+                if mm:
+                    return int(mm.group(1))
+            elif isinstance(v, complex):
+                if v.imag >= TAG_BASE:
+                    return int(v.imag) - TAG_BASE
+            elif isinstance(v, (int, float)) and not isinstance(v, bool) and v >= TAG_BASE:
+                return int(v) - TAG_BASE
+    if untagged:
+        inner = node
+        while isinstance(inner, (ast.With, ast.If)) and inner.body:
+            inner = inner.body[0]
+        value = getattr(inner, "value", None)
+        if value is not None:
+            return untagged.get(ast.unparse(value))
+    return None
+
+
+def sid_of_code(code: str, untagged=None):
+    return sid_of(ast.parse(code.strip()).body[0], untagged)
 
 
 def scoping_problems(fn: ast.FunctionDef) -> list[str]:
@@ -323,8 +406,10 @@ class C19(PropertyCheck):
     n_search = 3000
     n_runs_quick = 3
     n_runs_thorough = 18
-    rule = ("a case = a real TestCase (1-9 libcst statements of 4 shapes, 0-3 real Assertion objects each, sources: own "
-            "variable, earlier variable, dotted path, module global, unbound name) + a post-processing history + the real "
+    rule = ("a case = a real TestCase (1-9 libcst statements of 5 shapes incl. primitive/collection literals, 0-3 real "
+            "Assertion objects each, sources: own variable, earlier variable, dotted path, module attribute, class static "
+            "field, unbound name) + a post-processing history (passes, UnusedStatementsTestCaseVisitor visits through "
+            "TestCasePostProcessor, minimiser removals, chop, clone) + the real "
             "TestSuiteWriter.write with scripted or real re-execution; non-trivial = a distinct shape in which a statement "
             "carrying assertions loses its binding, is kept alive by an assertion only, is wrapped/xfailed, or is removed")
     assumptions = [
@@ -393,43 +478,72 @@ class C19(PropertyCheck):
         n = rng.choice([1, 1, 2, 2, 3, 3, 4, 5, 6, 7, 9])
         real = rng.random() < 0.12
         stmts, bound_so_far = [], []
+        untagged = {}
         aid = 0
         for i in range(n):
-            kind = rng.choices(STMT_KINDS, weights=[64, 18, 8, 10])[0]
+            kind = rng.choices(STMT_KINDS, weights=[46, 14, 6, 8, 26])[0]
             reads = sorted(set(rng.sample(bound_so_far, min(len(bound_so_far), rng.choice([0, 0, 1, 1, 2])))))
             if not real and rng.random() < 0.04:
                 reads.append(90 + rng.randrange(3))          # a name nothing binds
             boom = rng.randrange(4) if rng.random() < 0.18 else None
+            lit = None
+            if kind == "literal":                            # a primitive / collection statement: cannot raise
+                lit = rng.choice(sorted(LITERAL_FORMS))
+                text = LITERAL_FORMS[lit].format(t="", n=0, v="")
+                if lit in UNTAGGED and text in untagged:
+                    lit = rng.choice(["int", "str", "list", "tuple"])
+                if lit in UNTAGGED:
+                    untagged[text] = i
+                if lit != "vars":
+                    reads = []
+                boom = None
             if real and boom is not None:
                 kind = "expr"                                # a really raising statement binds nothing
             bound = None if kind == "expr" else 10 * 0 + i
             expected = sorted(set(rng.sample(range(4), rng.choice([0, 0, 1, 2]))))
             if boom is not None and rng.random() < 0.5 and boom not in expected:
                 expected = sorted(expected + [boom])
+            if kind == "literal":
+                expected = []                                # no callable accessible behind a literal
+            # the sources of the assertions attached here: with `foreign` none of them is the statement's own variable
+            # (what the assertion generator leaves on a statement whose own-value assertion was minimised away: first
+            # observation of module / class static state, re-observed fields of earlier objects)
+            foreign = rng.random() < (0.45 if kind == "literal" else 0.2)
             asserts = []
-            for _ in range(rng.choices([0, 1, 2, 3], weights=[40, 35, 17, 8])[0]):
+            for _ in range(rng.choices([0, 1, 2, 3], weights=[36, 37, 18, 9])[0]):
                 k = rng.choices(ASSERT_KINDS, weights=[30, 12, 14, 12, 12, 10 if boom is not None else 2])[0]
                 src = None
                 if k != "exc":
                     r = rng.random()
-                    pool_own = [bound] if bound is not None else []
+                    pool_own = [bound] if bound is not None and not foreign else []
                     if r < 0.5 and pool_own:
                         root = f"var_{bound}"
-                    elif r < 0.8 and bound_so_far:
+                    elif r < 0.78 and bound_so_far:
                         root = f"var_{rng.choice(bound_so_far)}"
-                    elif r < 0.88:
+                    elif r < 0.9:
                         root = "@alias"
                     elif r < 0.94:
                         root = f"var_{i + 1 + rng.randrange(3)}"   # bound later or never: ill-scoped on purpose
                     else:
                         root = f"var_{bound}" if pool_own else "@alias"
-                    tail = rng.choice(["", "", "", ".a", ".a.b", ".tag"]) if root != "@alias" else \
-                        rng.choice([".K.field", ".K"])
+                    tail = rng.choice(["", "", "", ".a", ".a.b", ".tag", ".b"]) if root != "@alias" else \
+                        rng.choice([".K.field", ".K", ".LIMIT", ".LIMIT"])
                     src = root + tail
-                asserts.append({"id": aid, "kind": k, "src": src})
+                a = {"id": aid, "kind": k, "src": src}
+                # an observation that returned to an earlier value (A -> B -> A) or was simply made again: an assertion
+                # EQUAL to an earlier one (same class, source, value) on this statement — a different oracle all the same
+                earlier = [e for t in stmts for e in t["asserts"] if e["kind"] != "exc"] + \
+                          [e for e in asserts if e["kind"] != "exc"]
+                if k != "exc" and earlier and rng.random() < 0.15:
+                    e = rng.choice(earlier)
+                    a.update(kind=e["kind"], src=e["src"], val=e.get("val", e["id"]))
+                asserts.append(a)
                 aid += 1
-            stmts.append({"sid": i, "kind": kind, "bound": bound, "btype": (i % 3) if bound is not None else None,
-                          "reads": reads, "boom": boom, "expected": expected, "asserts": asserts})
+            st = {"sid": i, "kind": kind, "bound": bound, "btype": (i % 3) if bound is not None else None,
+                  "reads": reads, "boom": boom, "expected": expected, "asserts": asserts}
+            if lit is not None:
+                st["lit"] = lit
+            stmts.append(st)
             if bound is not None:
                 bound_so_far.append(bound)
         ops = []
@@ -437,7 +551,7 @@ class C19(PropertyCheck):
         for _ in range(rng.choice([0, 1, 1, 2, 2, 3, 4])):
             r = rng.random()
             if not removals or r < 0.5:
-                ops.append("removeUnused" if rng.random() < 0.8 else "clone")
+                ops.append(rng.choices(["removeUnused", "visitUnused", "clone"], weights=[40, 40, 20])[0])
             elif r < 0.8:
                 ops.append({"removeFwd": {"index": rng.randrange(n + 2)}})
             else:
@@ -449,11 +563,18 @@ class C19(PropertyCheck):
             else:
                 fin = rng.random() > 0.04
                 outs.append({"finished": fin, "exc": s["boom"] if fin else None})
-        return {"stmts": stmts, "ops": ops, "noXfail": rng.random() < 0.3, "importOk": real or rng.random() > 0.04,
-                "outs": outs, "real": real, "visitor": rng.random() < 0.5}
+        case = {"stmts": stmts, "ops": ops, "noXfail": rng.random() < 0.3, "importOk": real or rng.random() > 0.04,
+                "outs": outs, "real": real}
+        if untagged:
+            case["untagged"] = untagged
+        return case
 
     # -- building the real objects ----------------------------------------------------------------
     def _code(self, s, alias):
+        if s["kind"] == "literal":
+            rhs = LITERAL_FORMS[s["lit"]].format(t=f'"s{s["sid"]}"', n=TAG_BASE + s["sid"],
+                                                 v="".join(f"var_{r}, " for r in s["reads"]))
+            return f"var_{s['bound']} = {rhs}\n"
         fn = "f" if s["boom"] is None else f"boom{s['boom']}"
         if s["kind"] == "expr" and s["boom"] is None:
             fn = "g"
@@ -466,7 +587,7 @@ class C19(PropertyCheck):
     def _assertion(self, a, alias):
         ass = self._m()["ass"]
         src = None if a["src"] is None else a["src"].replace("@alias", alias)
-        v = 1000 + a["id"]
+        v = 1000 + a.get("val", a["id"])                  # `val`: the value of an earlier assertion is observed again
         k = a["kind"]
         if k == "object":
             return ass.ObjectAssertion(src, v)
@@ -496,7 +617,7 @@ class C19(PropertyCheck):
                     ref[a["id"]] = norm_assert(cst.Module(body=[node]).code)
                 asserts.append(obj)
             acc = m["GF"](getattr(m["sut"], "f"), None, {EXC_NAMES[e] for e in s["expected"]}, "f") \
-                if (s["expected"] or s["sid"] % 2) else None
+                if (s["expected"] or s["sid"] % 2) and s["kind"] != "literal" else None
             b = s["bound"]
             tc.add_statement(tcm.Statement(
                 node=cst.parse_statement(self._code(s, alias)),
@@ -511,14 +632,16 @@ class C19(PropertyCheck):
         mm = VAR.match(name)
         return int(mm.group(1)) if mm and str(int(mm.group(1))) == mm.group(1) else name
 
-    def _abs(self, tc, amap):
+    def _abs(self, tc, amap, untagged=None):
         m = self._m()
         cst, tcm = m["cst"], m["tcm"]
         types = {int: 0, str: 1, list: 2}
         out = []
         for s in tc.statements():
             code = cst.Module(body=[s.node]).code
-            sid = int(re.search(r'"s(\d+)"', code).group(1))
+            sid = sid_of_code(code, untagged)
+            if sid is None:
+                raise RuntimeError(f"statement without identity tag: {code!r}")
             asserts = []
             for a in s.assertions:
                 src = getattr(a, "source", None)
@@ -536,16 +659,21 @@ class C19(PropertyCheck):
         m = self._m()
         export, pp = m["export"], m["pp"]
         tc, amap, ref = self._build(case)
-        initial = self._abs(tc, amap)
+        untagged = case.get("untagged")
+        initial = self._abs(tc, amap, untagged)
         # scoping of the ORIGINAL test case, by ast on its own code + rendered assertions
         trace = []
-        for op in case["ops"]:
-            err = False
-            if op == "removeUnused":
-                if case.get("visitor"):
-                    pp.UnusedStatementsTestCaseVisitor().visit_default_test_case(tc)
-                else:
-                    tc.remove_unused_variables()
+        for op in self._ops(case):
+            err, deleted = False, None
+            if op == "visitUnused":
+                # what generator._minimize does: the visitor inside a TestCasePostProcessor, on the chromosome
+                visitor = pp.UnusedStatementsTestCaseVisitor()
+                chrom = m["tcc"].TestCaseChromosome(test_case=tc)
+                pp.TestCasePostProcessor([visitor]).visit_test_case_chromosome(chrom)
+                tc = chrom.test_case
+                deleted = sorted(visitor.deleted_statement_indexes)
+            elif op == "removeUnused":
+                tc.remove_unused_variables()
             elif op == "clone":
                 tc = tc.clone()
             elif "removeFwd" in op:
@@ -555,8 +683,8 @@ class C19(PropertyCheck):
                     err = True
             else:
                 tc.chop(op["chop"]["position"])
-            trace.append({"stmts": self._abs(tc, amap), "indexError": err})
-        before_write = [x[0] for x in self._abs(tc, amap)]
+            trace.append({"stmts": self._abs(tc, amap, untagged), "indexError": err, "deleted": deleted})
+        before_write = [x[0] for x in self._abs(tc, amap, untagged)]
         # the real writer
         suite = m["tsc"].TestSuiteChromosome()
         suite.add_test_case_chromosome(m["tcc"].TestCaseChromosome(test_case=tc))
@@ -568,7 +696,7 @@ class C19(PropertyCheck):
 
         def fake_exec(code_str, namespace, tracer):
             calls["n"] += 1
-            o = by_sid[int(re.search(r'"s(\d+)"', code_str).group(1))]
+            o = by_sid[sid_of_code(code_str, untagged)]
             if not o["finished"]:
                 return False, None
             return True, (None if o["exc"] is None else exc_types[EXC_NAMES[o["exc"]]])
@@ -597,23 +725,37 @@ class C19(PropertyCheck):
         fn = find_function(text, "test_0")
         if fn is None or len(rec) != 1:
             raise RuntimeError("no test_0 in the written file / _per_statement_exceptions not called once")
-        inv = {v: k for k, v in ref.items()}
+        # an assert line of the file -> the id of the assertion it renders.  Equal assertions render to the same text, so
+        # the line is attributed to the first not yet seen assertion with this text attached to the statement it follows,
+        # else to any not yet seen assertion with this text (the file cannot tell them apart either)
+        attached = {s["sid"]: [a["id"] for a in s["asserts"]] for s in case["stmts"]}
+        all_ids = [a["id"] for s in case["stmts"] for a in s["asserts"]]
+        seen_ids: set[int] = set()
+        cur_sid = None
+
+        def resolve(text):
+            for pool in (attached.get(cur_sid, []), all_ids):
+                for i in pool:
+                    if i not in seen_ids and ref.get(i) == text:
+                        seen_ids.add(i)
+                        return i
+            return next((i for i in all_ids if ref.get(i) == text), None)
         roots = {a["id"]: (None if a["src"] is None else self._enc(a["src"].replace("@alias", m["alias"]).split(".")[0]))
                  for s in case["stmts"] for a in s["asserts"]}
         body = []
         for node in fn.body:
             if isinstance(node, ast.Assert):
                 t = ast.unparse(node)
-                body.append(["assert", [inv[t], roots[inv[t]]]] if t in inv else ["assert", ["?", t]])
+                i = resolve(t)
+                body.append(["assert", [i, roots[i]]] if i is not None else ["assert", ["?", t]])
             elif isinstance(node, ast.Pass):
                 body.append(["pass"])
             else:
                 exc = is_raises(node)
                 inner = node.body[0] if exc is not None else node
-                sids = [c.value for c in ast.walk(inner) if isinstance(c, ast.Constant) and isinstance(c.value, str)
-                        and re.fullmatch(r"s\d+", c.value)]
+                sid = cur_sid = sid_of(inner, untagged)
                 st = [nm for nm in stores_of(inner) if VAR.match(nm)]
-                body.append(["stmt", int(sids[0][1:]) if sids else -1, self._enc(st[0]) if st else None,
+                body.append(["stmt", -1 if sid is None else sid, self._enc(st[0]) if st else None,
                              None if exc is None else (EXC_NAMES.index(exc) if exc in EXC_NAMES else exc)])
         excs = [None if e is None else (EXC_NAMES.index(e.__name__) if e.__name__ in EXC_NAMES else e.__name__)
                 for e in rec[0]]
@@ -628,12 +770,19 @@ class C19(PropertyCheck):
                     src0.append(m["cst"].Module(body=[n]).code)
         fn0 = ast.parse("def t():\n" + "".join("    " + ln + "\n" for blk in src0 for ln in blk.splitlines())).body[0]
         self._io[id(case)] = {"initial": initial, "excs": None}
-        io = {"initial": initial, "trace": trace, "before_write": before_write, "written": self._abs(tc, amap),
+        io = {"initial": initial, "trace": trace, "before_write": before_write,
+              "written": self._abs(tc, amap, untagged),
                 "excs": excs, "body": body, "xfail": any(is_xfail(d) for d in fn.decorator_list),
                 "scoped0": not scoping_problems(fn0), "unscoped": scoping_problems(fn),
                 "exec_calls": calls["n"]}
         self._io[id(case)]["excs"] = excs
         return io
+
+    @staticmethod
+    def _ops(case):
+        """the history; corpus cases written before the visitor became a step of its own carry a `visitor` flag that
+        turns every `removeUnused` into a visit"""
+        return ["visitUnused" if (op == "removeUnused" and case.get("visitor")) else op for op in case["ops"]]
 
     # -- model side ------------------------------------------------------------------------------
     def model_line(self, case):
@@ -643,7 +792,7 @@ class C19(PropertyCheck):
                   "asserts": [({"exc": {"id": a[0]}} if a[1] is None and self._is_exc(case, a[0])
                                else {"ref": {"id": a[0], "root": a[1]}}) for a in x[4]],
                   "simpleAssign": x[5], "expected": x[6]} for x in io["initial"]]
-        return vcommon.jdump({"stmts": stmts, "ops": case["ops"], "noXfail": case["noXfail"],
+        return vcommon.jdump({"stmts": stmts, "ops": self._ops(case), "noXfail": case["noXfail"],
                               "importOk": case["importOk"],
                               "outs": [dict(o, sid=st["sid"]) for st, o in zip(case["stmts"], case["outs"])],
                               "excs": io["excs"] if case["real"] else None})
@@ -659,7 +808,8 @@ class C19(PropertyCheck):
         if len(mo["trace"]) != len(io["trace"]):
             return False
         for a, b in zip(io["trace"], mo["trace"]):
-            if a["indexError"] != b["indexError"] or canon(a["stmts"]) != canon(b["stmts"]):
+            if (a["indexError"] != b["indexError"] or canon(a["stmts"]) != canon(b["stmts"])
+                    or a["deleted"] != b.get("deleted")):
                 return False
         return (canon(io["written"]) == canon(mo["written"]) and io["excs"] == mo["excs"]
                 and io["body"] == mo["body"] and io["xfail"] == mo["xfail"]
@@ -677,7 +827,9 @@ class C19(PropertyCheck):
                 groups.append([it[1], []])
             elif it[0] == "assert":
                 (groups[-1][1] if groups else stray).append(it[1][0])
-        pure = all(op in ("removeUnused", "clone") for op in case["ops"])
+        # no step of the history is a statement removal of a minimiser (those may take a statement and its
+        # assertions away: C22): passes, visits of the unused-statements visitor, clones
+        pure = all(op in ("removeUnused", "visitUnused", "clone") for op in case["ops"])
 
         def srcclass(sid, aid):
             src = kinds[aid][1]
@@ -704,12 +856,23 @@ class C19(PropertyCheck):
                     fails.append(Failure({"class": "assertions-reordered-or-foreign"},
                                          f"statement s{sid}: attached ids {want[sid]}, exported below it {got}"))
         exported = [g[0] for g in groups]
+        if pure:
+            # "never silently drop an oracle": a statement that carried a renderable assertion is in the file
+            for st in case["stmts"]:
+                if want[st["sid"]] and st["sid"] not in exported:
+                    a = want[st["sid"]][0]
+                    fails.append(Failure(
+                        {"class": "assertion-dropped", "source": srcclass(st["sid"], a), "statement": st["kind"],
+                         "how": "statement-deleted"},
+                        f"statement s{st['sid']} ({self._code(st, 'c19sut_').strip()!r}) carried the {kinds[a][0]} "
+                        f"assertion on {kinds[a][1]!r} (attached ids {want[st['sid']]}) and is not in the exported "
+                        f"function at all although the history {case['ops']} contains no minimiser removal; "
+                        f"exported statements {exported}"))
         if exported != io["before_write"]:
             fails.append(Failure({"class": "statement-dropped-by-export"},
                                  f"test case had statements {io['before_write']} when write() was called, file shows {exported}"))
-        if pure and exported != [s["sid"] for s in case["stmts"]]:
-            fails.append(Failure({"class": "statement-dropped-by-postprocessing"},
-                                 f"history {case['ops']} has no removal step but the file shows statements {exported}"))
+        # (a statement WITHOUT assertions that disappears in such a history is no lost oracle — Lean:
+        # `C19_any_visitor_sparing_assertions` —; it still is a model/implementation disagreement)
         order = [s["sid"] for s in case["stmts"]]
         it = iter(order)
         if not all(any(x == y for y in it) for x in exported):
@@ -747,6 +910,18 @@ class C19(PropertyCheck):
         if None in io["excs"] and any(not o["finished"] for o in case["outs"]):
             feats.append(("timeout",))
         self.count("kind:" + ("real-exec" if case["real"] else "scripted"))
+        by_sid = {s["sid"]: s for s in case["stmts"]}
+        bound_now = {x[0]: x[1] for x in io["written"]}
+        for x in io["initial"]:
+            st = by_sid[x[0]]
+            if st["kind"] == "literal":
+                self.count("stmt:literal:" + st["lit"])
+            # a statement that lost its binding while every renderable assertion on it reads something else
+            if x[1] is not None and bound_now.get(x[0], x[1]) is None and any(a[1] is not None for a in x[4]):
+                self.count(f"unbound-carrier:{st['kind']}:" + "+".join(sorted(
+                    {"module-attr" if isinstance(a[1], str) else "other-variable" for a in x[4] if a[1] is not None})))
+        if "visitUnused" in self._ops(case):
+            self.count("history:with-visitor")
         self.count("assertions:" + str(min(9, sum(len(x[4]) for x in io["initial"]))))
         for f in feats:
             self.count("feature:" + f[0])
